@@ -175,7 +175,8 @@ class LuaTemplates:
                             key = "many"
                         else:
                             key = "?"
-                        cases[key] = self.events(arm["body"], refs, env)
+                        # arms with a guard (`0 if ..`) share their count with the arm after them: what either writes may be written
+                        cases[key] = cases.get(key, []) + self.events(arm["body"], refs, env)
                 return [("case-count", cnt, cases)]
             out += self.events(n["scrut"], refs, env)
             alts = [self.events(a["body"], refs, env) for a in n["arms"]]
